@@ -112,6 +112,32 @@ func bodyString(p *packages.Package, is *ast.IfStmt) string {
 	return strings.Join(parts, "; ")
 }
 
+// elideArgs replaces the argument list of every call that starts with prefix (which ends in "(") by "_"
+func elideArgs(text, prefix string) string {
+	var b strings.Builder
+	for {
+		i := strings.Index(text, prefix)
+		if i < 0 {
+			b.WriteString(text)
+			return b.String()
+		}
+		b.WriteString(text[:i+len(prefix)])
+		rest := text[i+len(prefix):]
+		depth, j := 1, 0
+		for j < len(rest) && depth > 0 {
+			switch rest[j] {
+			case '(':
+				depth++
+			case ')':
+				depth--
+			}
+			j++
+		}
+		b.WriteString("_)")
+		text = rest[j:]
+	}
+}
+
 func (x *extractor) genExprs() {
 	facts := map[string]string{}
 	api := x.pkg("internal/api")
@@ -171,7 +197,8 @@ func (x *extractor) genExprs() {
 		put("apply.async", fmt.Sprint(async))
 		wi, wev := firstEvent(evs, "if", "nil != recv.raftNode.Apply(")
 		if wev != nil {
-			put("apply.wait", wev.Text+" => "+bodyText(*wev))
+			// what is proposed does not matter for the order of waiting and answering: the arguments are elided
+			put("apply.wait", elideArgs(wev.Text+" => "+bodyText(*wev), "recv.raftNode.Apply("))
 		} else {
 			put("apply.wait", "")
 		}
